@@ -187,6 +187,8 @@ type QProv struct {
 	Prim  bool   `json:"primary,omitempty"`
 	Named bool   `json:"named,omitempty"`
 	Q     string `json:"q"` // "-" = Qualifier() not declared
+	// First: the custom name sorts before every default name ("a-x<i>" instead of "x<i>")
+	First bool `json:"name_sorts_first,omitempty"`
 }
 
 func (p QProv) String() string {
@@ -217,6 +219,9 @@ func (p QProv) TypeKey() string {
 
 // RegName is the name the provider is registered under when it is the i-th of its population.
 func (p QProv) RegName(i int) string {
+	if p.Named && p.First {
+		return fmt.Sprintf("a-x%d", i)
+	}
 	if p.Named {
 		return fmt.Sprintf("x%d", i)
 	}
@@ -229,6 +234,9 @@ func BuildQ(p QProv, i int) any {
 	b := QBase{Id: id}
 	if p.Named {
 		b.Name = id
+		if p.First {
+			b.Name = "a-" + id
+		}
 	}
 	switch p.TypeKey() {
 	case "PlainNQ":
